@@ -11,12 +11,12 @@
               harness's own evaluation of the two guards (checked here against the Coq definitions,
               because the check's classification of a failing case reads them from the case description).
     A panic of the implementation is [None] (unknown message) or [Some (Err e)]. *)
-From V Require Import Base.Util Gql.Ast Writer.Wop Ts.TsType Ts.TsDen C01.Model C01.Spec.
+From V Require Import Base.Util Gql.Ast Writer.Wop Ts.TsType Ts.TsDen C01.Model C01.Spec C01.Guards.
 
 Inductive case :=
 | CDoc (S : tsdoc) (D : opdoc) (ops : option (res (list wop)))
 | CDef (S : tsdoc) (D : opdoc) (idx : nat) (tree : option (res stree)) (t : option tstype)
-       (safe alias_free : bool)
+       (safe alias_free plain mfree : bool)   (* the harness's evaluation of the four guards *)
 | CInvalid (S : tsdoc) (D : opdoc) (idx : nat) (tree : option (res stree))
    (* a definition of a spec-INVALID document that check nevertheless accepts (Field Selection Merging is
       not implemented by the checker: same response key for a leaf and an object field, or for fields of
@@ -109,7 +109,7 @@ Definition agree (c : case) : bool :=
       | Some r => res_eqb wops_eqb (print_document default_options Sc D) r
       | None => false
       end
-  | CDef Sc D idx tree t safe al =>
+  | CDef Sc D idx tree t safe al pl mf =>
       match nth_error (od_defs D) idx with
       | None => false
       | Some d =>
@@ -120,6 +120,8 @@ Definition agree (c : case) : bool :=
           && option_eqb tstype_eqb (res_opt (emit_type default_options Sc D d)) t
           && Bool.eqb (guard_safe Sc D d) safe
           && Bool.eqb (guard_alias_free Sc D d) al
+          && Bool.eqb (guard_plain Sc d) pl
+          && Bool.eqb (guard_merge_free Sc D d) mf
       end
   | CRelaxed _ _ _ _ => true
   | CInvalid Sc D idx tree =>
@@ -163,7 +165,7 @@ Definition holds_with (p : tsdoc -> opdoc -> execdef -> tstype -> bool) (c : cas
   | CDoc _ _ _ => true
   | CRelaxed _ _ _ _ => true
   | CInvalid _ _ _ _ => true
-  | CDef Sc D idx _ t _ _ =>
+  | CDef Sc D idx _ t _ _ _ _ =>
       match nth_error (od_defs D) idx, t with
       | Some d, Some t => p Sc D d t
       | _, _ => false          (* no type was produced for a definition of a valid document *)
